@@ -326,6 +326,15 @@ struct Cl {
     reenter: u32,
 }
 
+/// a span name given as a user type whose conversion into the name itself uses the tracing API
+struct ReName(String);
+impl From<ReName> for std::borrow::Cow<'static, str> {
+    fn from(r: ReName) -> Self {
+        let _s = LocalSpan::enter_with_local_parent("cl");
+        std::borrow::Cow::Owned(r.0)
+    }
+}
+
 fn parse_closure(s: &str) -> Option<Cl> {
     let (r, p) = s.split_once(':')?;
     Some(Cl { kvs: parse_props(p)?, reenter: r.parse().ok()? })
@@ -475,6 +484,10 @@ fn thread_op(k: usize, guards: &mut Vec<G>, w: &[&str]) -> Option<String> {
             put_span(v, Span::enter_with_local_parent(str_of_hex(n)?));
             "ok".into()
         }
+        ["childLocalRe", v, n] => {
+            put_span(v, Span::enter_with_local_parent(ReName(str_of_hex(n)?)));
+            "ok".into()
+        }
         ["withProps", v, cl] => {
             let cl = parse_closure(cl)?;
             let Some(s) = take_span(v) else { return Some("bad-op unknown span".into()) };
@@ -533,6 +546,10 @@ fn thread_op(k: usize, guards: &mut Vec<G>, w: &[&str]) -> Option<String> {
         },
         ["localEnter", n] => {
             guards.push(G::Local(Some(LocalSpan::enter_with_local_parent(str_of_hex(n)?))));
+            "ok".into()
+        }
+        ["localEnterRe", n] => {
+            guards.push(G::Local(Some(LocalSpan::enter_with_local_parent(ReName(str_of_hex(n)?)))));
             "ok".into()
         }
         ["collectorStart"] => {
